@@ -33,8 +33,16 @@ def port_listening(port):
     return False
 
 
-def burst(stream, t, c, k):
-    return ("%s of %s:%s burst %d line 1\n%s of %s:%s burst %d line 2\n" % (stream, c, t, k, stream, c, t, k)).encode()
+LONG = {}
+
+
+def burst(stream, t, c, k, long_line=0):
+    b = ("%s of %s:%s burst %d line 1\n%s of %s:%s burst %d line 2\n" % (stream, c, t, k, stream, c, t, k)).encode()
+    if long_line:
+        # short line, then a line of `long_line` bytes, then a short line - all in one flush block
+        mid = (("%s-%s-%s-%d-" % (stream[:3], c, t, k)).encode() * (long_line // 10 + 1))[:long_line - 1] + b"\n"
+        b = b + mid + ("%s of %s:%s burst %d after the long line\n" % (stream, c, t, k)).encode()
+    return b
 
 
 def stored_logs(r, doc):
@@ -133,6 +141,13 @@ def c15_run(desc):
                 for ch in g1:
                     say(ch, k)
                 pause()
+            if desc.get("pattern") == "tail":
+                # an unterminated last line that stays pending across a flush tick before the pipe closes
+                for ch in g1:
+                    t = os.path.relpath(ch.cwd, r.dir)
+                    c.send(ch, ["out " + ("tail of %s without newline" % t).encode().hex(), "err " + ("err tail of %s" % t).encode().hex()])
+                    c.wait_acks(ch, 10)
+                pause()
             for ch in g1:
                 c.release(ch, 0)
             c.wait(lambda: all(ch.state == "gone" for ch in g1) or p.done(), 10)
@@ -180,6 +195,10 @@ def c15_run(desc):
 
 def c15_scenarios(tier):
     out = [{"listener": None, "fate": f} for f in FATES]  # one listener-absent baseline per burst pattern
+    out += [{"listener": None, "fate": f, "pattern": "tail"} for f in ("never", "mid_output")]
+    for cfg in (["--stdout", "--stderr"], ["--stderr"], ["--stdout", "-t", "a"]):
+        for f in ("never", "mid_output"):
+            out.append({"listener": cfg, "fate": f, "pattern": "tail"})
     configs = []
     for streams in (["--stdout"], ["--stderr"], ["--stdout", "--stderr"]):
         for tf in ([], ["-t", "a"], ["-t", "c"]):
@@ -308,7 +327,8 @@ def c20_run(desc):
                         continue
                     for ch in grp:
                         t = os.path.relpath(ch.cwd, r.dir)
-                        c.send(ch, ["out " + burst("stdout", t, cmd, k).hex(), "err " + burst("stderr", t, cmd, k).hex()])
+                        ll = desc.get("long_line", 0)
+                        c.send(ch, ["out " + burst("stdout", t, cmd, k, ll).hex(), "err " + burst("stderr", t, cmd, k, ll).hex()])
                         c.wait_acks(ch, 10)
                     c.wait(lambda: False, GAP)
                 for ch in grp:
@@ -391,6 +411,9 @@ def c20_scenarios(tier):
     # lines written in two parts with a flush tick in between (progress-style output)
     for s_, t, c in [(["--stdout", "--stderr"], [], []), (["--stdout"], ["a"], []), (["--stderr"], [], ["test"]), (["--stdout", "--stderr"], ["b"], ["build"])]:
         out.append({"streams": s_, "targets": t, "commands": c, "short": True, "split": True})
+    # line lengths around and beyond typical buffer sizes inside one block (short, long, short)
+    for ll in ([8192, 70000] if tier == "quick" else [1000, 4095, 4096, 8191, 8192, 8193, 16384, 65536, 70000, 300000]):
+        out.append({"streams": ["--stdout", "--stderr"], "targets": [], "commands": [], "short": True, "long_line": ll})
     # held schedules: the first task to flush is held inside the critical section
     n = 6 if tier == "quick" else 24
     for i in range(n):
@@ -413,7 +436,7 @@ def run(prop, tier):
         errs = [r["engine_error"] for r in results if "engine_error" in r]
         if errs:
             raise common.EngineError("; ".join(errs[:2]))
-        bases = {d["fate"]: r for d, r in zip(descs, results) if d["listener"] is None}
+        bases = {(d["fate"], d.get("pattern")): r for d, r in zip(descs, results) if d["listener"] is None}
         for f, b in bases.items():
             if b.get("exit") != 0 or b.get("failed") is not False:
                 raise common.EngineError("listener-absent baseline for burst pattern %s is not a clean success: %s" % (f, json.dumps(b)[:400]))
@@ -425,12 +448,12 @@ def run(prop, tier):
                 continue
             if r.get("listener_saw"):
                 nontrivial += 1
-            for sig, detail in c15_compare(d, r, bases[d["fate"]]):
+            for sig, detail in c15_compare(d, r, bases[(d["fate"], d.get("pattern"))]):
                 viol.append({"sig": sig, "detail": detail, "rank": FATES.index(d["fate"]) * 10 + len(d["listener"]), "case": {"c15": d}})
             if len(samples) < 5:
                 samples.append({"listener": d["listener"], "fate": d["fate"], "exit": r.get("exit"), "listener_bytes": r.get("listener_saw")})
         agg = {"evaluations": len(results), "distinct_nontrivial": nontrivial, "violations": viol, "samples": samples, "exhaustive": True,
-               "rule": "plan = 2 groups (a, b then c) with controlled children producing bursts on both streams separated by %.2fs (longer than the flush period); listener in {absent} + configurations (streams x target filter x command filter; quick: 4 of 18) x fate in %s (SIGKILL; plus SIGTERM for the unfiltered listener); after a kill the children produce at least two further bursts so that at least two flushes hit the dead connection; oracle: exit status, failed flag, statuses and decoded stored logs equal the listener-absent baseline of the same burst pattern, and no child is left running; non-trivial = scenarios in which the listener actually received bytes" % (GAP, FATES)}
+               "rule": "plan = 2 groups (a, b then c) with controlled children producing bursts on both streams separated by %.2fs (longer than the flush period); listener in {absent} + configurations (streams x target filter x command filter; quick: 4 of 18) x fate in %s (SIGKILL; plus SIGTERM for the unfiltered listener); a second output pattern ends every stream of the first group with an unterminated line that stays pending across a flush tick; after a kill the children produce at least two further bursts so that at least two flushes hit the dead connection; oracle: exit status, failed flag, statuses and decoded stored logs equal the listener-absent baseline of the same burst pattern, and no child is left running; non-trivial = scenarios in which the listener actually received bytes" % (GAP, FATES)}
     else:
         descs = c20_scenarios(tier)
         results = common.pmap(_worker, [("c20", d) for d in descs])
@@ -465,7 +488,7 @@ def replay(prop, path):
     if "c15" in case:
         d = case["c15"]
         # the burst pattern depends on the fate: the baseline is replayed with the same pattern
-        base = c15_run({"listener": None, "fate": d["fate"]})
+        base = c15_run({"listener": None, "fate": d["fate"], "pattern": d.get("pattern")})
         obs = c15_run(d)
         if "engine_error" in obs or "engine_error" in base:
             print("ENGINE:", obs.get("engine_error") or base.get("engine_error"))
